@@ -18,8 +18,32 @@ package ahtree
 
 import "crypto/sha256"
 
+// inclusionProofLen returns the number of terms of the inclusion proof of the i-th leaf
+// in the tree of size j (1 <= i <= j): one term per level at which the node has a sibling.
+func inclusionProofLen(i, j uint64) int {
+	i1 := i - 1
+	j1 := j - 1
+
+	l := 0
+
+	for j1 > 0 {
+		if i1%2 == 1 || i1 < j1 {
+			l++
+		}
+		i1 >>= 1
+		j1 >>= 1
+	}
+
+	return l
+}
+
 func VerifyInclusion(iproof [][sha256.Size]byte, i, j uint64, iLeaf, jRoot [sha256.Size]byte) bool {
 	if i > j || i == 0 || (i < j && len(iproof) == 0) {
+		return false
+	}
+
+	// the proof must have exactly the shape determined by the claimed positions
+	if len(iproof) != inclusionProofLen(i, j) {
 		return false
 	}
 
@@ -64,9 +88,49 @@ func VerifyConsistency(cproof [][sha256.Size]byte, i, j uint64, iRoot, jRoot [sh
 		return iRoot == jRoot
 	}
 
+	// the proof must have exactly the shape determined by the claimed sizes
+	if i < j && !consistencyProofFits(len(cproof), i, j) {
+		return false
+	}
+
 	ciRoot, cjRoot := EvalConsistency(cproof, i, j)
 
 	return iRoot == ciRoot && jRoot == cjRoot
+}
+
+// consistencyProofFits replays the walk of EvalConsistency over a proof with the given
+// number of terms and reports whether it ends exactly at the root of the tree of size j
+// (i < j), neither before it nor beyond it.
+func consistencyProofFits(terms int, i, j uint64) bool {
+	if terms == 0 {
+		return false
+	}
+
+	fn := i - 1
+	sn := j - 1
+
+	for fn%2 == 1 {
+		fn >>= 1
+		sn >>= 1
+	}
+
+	for t := 1; t < terms; t++ {
+		if sn == 0 {
+			return false
+		}
+
+		if fn%2 == 1 || fn == sn {
+			for fn%2 == 0 && fn != 0 {
+				fn >>= 1
+				sn >>= 1
+			}
+		}
+
+		fn >>= 1
+		sn >>= 1
+	}
+
+	return sn == 0
 }
 
 func EvalConsistency(cproof [][sha256.Size]byte, i, j uint64) ([sha256.Size]byte, [sha256.Size]byte) {
@@ -110,6 +174,11 @@ func EvalConsistency(cproof [][sha256.Size]byte, i, j uint64) ([sha256.Size]byte
 
 func VerifyLastInclusion(iproof [][sha256.Size]byte, i uint64, leaf, root [sha256.Size]byte) bool {
 	if i == 0 {
+		return false
+	}
+
+	// the proof must have exactly the shape determined by the claimed size
+	if len(iproof) != inclusionProofLen(i, i) {
 		return false
 	}
 
